@@ -164,6 +164,22 @@ Example C08_hist20_repaired :
   snd (step st (ORead 0)) = OutOk /\ st_ses (fst (step st (ORead 0))) = st_ses st.
 Proof. exact hist20_repaired. Qed.
 
+(* ---- (5a') the live register wins entry by entry, an explicit zero included: a coefficient revised
+   after the dump (to zero, to another value, or newly added) is what the leaf knows after any load *)
+Theorem C08_live_entry_wins :
+  forall arch c v r, dget uid_eqb c v = Some r -> dget uid_eqb (corr_merge c arch) v = Some r.
+Proof. exact corr_merge_live_wins. Qed.
+Print Assumptions C08_live_entry_wins.
+
+Example C08_live_zero_wins :
+  let st := run (init_state 1) hist_zero in
+  let rd := fst (step st (ORead 0)) in let cp := fst (step st (OCopy 0)) in
+  snd (step st (ORead 0)) = OutOk /\ snd (step st (OCopy 0)) = OutOk /\
+  corr_of st (1, 1) (1, 4) = Some 0 /\ corr_of st (1, 2) (1, 3) = Some 0 /\
+  corr_of st (1, 1) (1, 3) = Some 2 /\ corr_of st (1, 2) (1, 4) = Some (-4) /\
+  s_leaves (st_ses rd) = s_leaves (st_ses st) /\ s_leaves (st_ses cp) = s_leaves (st_ses st).
+Proof. exact live_zero_wins. Qed.
+
 (* ---- (5b) order of loads: what a leaf knows after an archived record is merged into its own is
    its own entries plus the archived ones it lacked; records that agree wherever both speak
    (archives written at different times: the later one only adds correlations) merge to the
